@@ -1,20 +1,73 @@
-"""Reduced-ring exponentiation (integer/src/modular/pow.rs) and ring identity on the real pointers, property C13."""
-VERUS = {}
-_RB = ('concrete moduli 1_000_003 (1 word), 2^64+13 (2 words), [7,5,2^62+1] (3 words), concrete elements 0/1; the operator '
+"""Reduced-ring exponentiation (integer/src/modular/pow.rs) and ring identity on the real pointers, property C13.
+
+Vocabulary: contracts/lib/mod2_ring.rs (multi-word rings, as in registry_d/modular.py) + contracts/lib/mp_*.rs
+(`ipow` = the mathematical power by recursion on the exponent, `is_pow` = "these stored words hold r^k mod m",
+window lemmas tying the word-level shifts / masks of the sliding window to div / mod of the exponent VALUE).
+Annotated copies: contracts/annot/integer/modpow/."""
+VERUS = {
+    # modular/pow.rs `mod large`: pow (0 / 1 / general), pow_nontrivial (sliding window: table of odd powers, window
+    # extraction across exponent-word boundaries, squarings, final multiply), choose_pow_window_len (1 <= w < WORD_BITS).
+    #   ensures red_ok(ret), resid(ret) == ipow(resid(raw), exp) % modulus, 0 <= resid(ret) < modulus
+    # unbounded in the exponent length and the modulus length; over the PROVED contracts (//@@ SIG) of
+    # mul.rs sqr_in_place / mul_normalized (unit int_modmul) and ReducedLarge::one (unit int_modpow_one)
+    'int_modpow_large': {'file': 'int_modpow_large.rs', 'w32': True},
+    # modular/repr.rs ReducedLarge::one: stored 2^shift, valid, residue 1
+    'int_modpow_one': {'file': 'int_modpow_one.rs', 'w32': True},
+    # modular/pow.rs `mod single` / `mod double` (macro impl_mod_pow_for_primitive!): pow_word, pow_helper, pow,
+    # pow_nontrivial:  residue(ret) == residue(raw)^e mod m for one-word, two-word and multi-word exponents (unbounded),
+    # over the ASSUMED num_modular Reducer contract (sqr / mul); modulus 1 with exponent 0 excluded (genuine defect)
+    'int_modpow_single': {'file': 'int_modpow_single.rs', 'w32': True},
+    'int_modpow_double': {'file': 'int_modpow_double.rs', 'w32': True},
+}
+
+_RB = ('concrete moduli 1_000_003 (1 word) / 2^64+13 (2 words) built twice resp. once, concrete elements 0/1; the operator '
        'form (19 forms of + - * += -= *= ==, value/reference operands) is symbolic')
+_RL = ('concrete 3-word modulus [7,5,2^62+1] built twice resp. once, concrete elements 0/1, ONE concrete operator form per '
+       'harness (a += &b, a -= &b, &a - b, a == b)')
 KANI = {
     'int_modring': {
         'package': 'dashu-int', 'target': 'integer/src/modular/repr.rs', 'file': 'int_modring.rs',
         'harnesses': {
             'vk_modring_single_two_instances_panic': {'kind': 'bounded', 'bound': _RB},
             'vk_modring_double_two_instances_panic': {'kind': 'bounded', 'bound': _RB},
-            'vk_modring_large_two_instances_panic': {'kind': 'bounded', 'bound': _RB},
             'vk_modring_instances_equal_as_values': {'kind': 'bounded', 'bound': _RB},
-            'vk_modring_mixed_repr_panic': {'kind': 'bounded', 'bound': _RB},
+            'vk_modring_mixed_repr_panic': {'kind': 'bounded', 'bound': _RB + '; all 6 ordered pairs of single/double/3-word elements'},
             'vk_modring_single_one_instance_ok': {'kind': 'bounded', 'bound': _RB},
             'vk_modring_double_one_instance_ok': {'kind': 'bounded', 'bound': _RB},
-            'vk_modring_large_one_instance_ok': {'kind': 'bounded', 'bound': _RB},
+            'vk_modring_large_two_instances_add_panic': {'kind': 'bounded', 'bound': _RL},
+            'vk_modring_large_two_instances_sub_panic': {'kind': 'bounded', 'bound': _RL},
+            'vk_modring_large_two_instances_rsub_panic': {'kind': 'bounded', 'bound': _RL},
+            'vk_modring_large_two_instances_eq_panic': {'kind': 'bounded', 'bound': _RL},
+            'vk_modring_large_one_instance_add_ok': {'kind': 'bounded', 'bound': _RL},
+            'vk_modring_large_one_instance_sub_ok': {'kind': 'bounded', 'bound': _RL},
+            'vk_modring_large_one_instance_rsub_ok': {'kind': 'bounded', 'bound': _RL},
+            'vk_modring_large_one_instance_eq_ok': {'kind': 'bounded', 'bound': _RL},
         },
     },
 }
-PROP_UNITS = {}
+
+PROP_UNITS = {
+    'C13': {'verus': ['int_modpow_large', 'int_modpow_one', 'int_modpow_single', 'int_modpow_double'],
+            'kani': ['int_modring'],
+            'undecided': [
+                'pow (supersedes the first entry of registry_d/modular.py): large::pow / pow_nontrivial / choose_pow_window_len and '
+                'single/double pow_word / pow_helper / pow / pow_nontrivial are PROVED (unbounded exponent); not under contract: the '
+                'three-arm dispatch `Reduced::pow` (pow.rs:30) and ReducedWord/ReducedDword::one (transcribed as stub contracts)',
+                'GENUINE DEFECT excluded by precondition (int_modpow_single): in the ring of modulus 1 pow(0) returns the stored value '
+                '2^63 == the stored modulus: residue() reads 1 (not in [0, 1)), != ring.reduce(1); debug builds panic in '
+                'Reduced::from_single (repr.rs:69).  Input: ConstDivisor::new(UBig::ONE).reduce(5).pow(&UBig::ZERO)',
+                'int_modpow_large ASSUMES (lib/mp_stubs.rs): exponent UBig::{is_zero, is_one, bit_len, as_words} (value-level '
+                'meaning), ReducedLarge::clone (deep copy), Box<[T]>::as_ref, math::ones_word (2^n - 1: contract of the bits units), '
+                'scratch-memory SIZING (add_layout / array_layout / mul_memory_requirement: a too small area panics, never changes a '
+                'value), panic_allocate_too_much (a possible panic); Memory::allocate_slice_fill (lib/mod2_mem.rs); precondition '
+                'ring length <= Buffer::MAX_CAPACITY (type invariant of a ring built from a Buffer)',
+                'int_modpow_single / int_modpow_double ASSUME the num_modular Reducer contract (PreMulInv2by1 / PreMulInv3by2 '
+                'sqr, mul: stored product reduced, lib/mp_prim*_stubs.rs), UBig::repr() (lib/mp_prim_common.rs) and '
+                'u64::leading_zeros (vstd axiom)',
+                'ring identity (Kani group int_modring, BOUNDED: concrete moduli 1_000_003, 2^64+13, [7,5,2^62+1]): two instances '
+                'with equal modulus panic for all 19 operator forms (single / double word, mixed representations) resp. for '
+                'a += &b, a -= &b, &a - b, a == b (3-word ring); `*` `/` on 3-word rings and inv-based division are not covered',
+            ]},
+    'C16': {'verus': ['int_modpow_large', 'int_modpow_one', 'int_modpow_single', 'int_modpow_double']},
+    'C19': {'verus': ['int_modpow_large', 'int_modpow_one', 'int_modpow_single', 'int_modpow_double']},
+}
